@@ -357,6 +357,7 @@ func c12Menu(thorough bool) (menu []c12Upd) {
 				}
 			}
 		}
+		c12Forged(&menu)
 		return
 	}
 	mk("optimistic", 0, E-40, E-39, 1)
@@ -375,7 +376,23 @@ func c12Menu(thorough bool) (menu []c12Upd) {
 	mk("full", E+c12Period+64, E+c12Period+130, E+c12Period+131, 512)
 	mk("finality", E-32, E-8, E-7, 512)
 	mk("optimistic", 0, E-1, E, 342)
+	c12Forged(&menu)
 	return
+}
+
+// c12Forged: for the finality update of the menu with 341 participants, the same update with the
+// bitmap inflated to all 512 members and the 341-member signature kept. Applied after the genuine
+// one (whose attested header is then the store's optimistic header) it must still fail
+// verification: its signature is not valid for the participants it names.
+func c12Forged(menu *[]c12Upd) {
+	for _, u := range *menu {
+		if u.Kind == "finality" && u.Part == 341 {
+			f := u
+			f.Corrupt = "bits-all"
+			*menu = append(*menu, f)
+			return
+		}
+	}
 }
 
 func c12StoreKey(s *beacon.LightClientStore) string {
